@@ -80,6 +80,14 @@ class Project:
             tmp.write_text(text)
             os.utime(tmp, (t, t))
             os.replace(tmp, path)
+        elif self.clock % 3 == 0:
+            # every third edit of an existing file: a NEW file with the OLD file's mtime is moved into place (cp -p of
+            # another version, then mv): when the new content has the old length, only the inode tells the two apart
+            old_m = path.stat().st_mtime
+            tmp = path.with_name(path.name + ".rvnew")
+            tmp.write_text(text)
+            os.utime(tmp, (old_m, old_m))
+            os.replace(tmp, path)
         else:
             with open(path, "w") as f:
                 f.write(text)
